@@ -101,6 +101,15 @@ def run (d : DSt) (args : List Str) (impl : String) : DSt × String × String ×
       let cnt (i : Nat) : Nat := ((rs.getD i []).filter isResponse).length
       let out := s!"queued r1={cnt 0} r2={cnt 1} order={String.join (List.replicate s'.cbCalls "q,")}{String.join (List.replicate s'.nilCalls "nil,")}"
       (d, out, out, "queued")
+    else if c = str "shutdownlive" then
+      -- `released`: once the duration has passed nothing of a query event is left, whether or not
+      -- the service is still running (the nil call itself needs a running service)
+      let n := num t
+      let out := s!"shutdownlive started={n} listeners-left=0"
+      (d, out, out, "shutdownlive")
+    else if c = str "restartdur" then
+      -- the duration is the one configured for the run the query event belongs to
+      (d, "restartdur nil=T early=F", "restartdur nil=T early=F", "restartdur")
     else if c = str "lateenq" then
       -- `run` on [expire, request]: the request reaches the group after the nil call and is dropped
       let (s', rs) := QueryEvent.run 0 {} [.expire, .request .ok [.notFound]]
